@@ -164,6 +164,12 @@ def overlap_exact(ssj, rec, case, L, R, tok, size, op, lk, rk, la, ra, n_jobs=1,
             rec.violation('overlap_tables', 'pair (%r, %r) listed twice' % (lkey, rkey), case=case)
         got[(i, j)] = score
     for p in set(exp) | set(got):
+        if view.lvals[p[0]] == '' or view.rvals[p[1]] == '':
+            # '' has tokens under a padded q-gram tokenizer: filter_pair must drop such a pair
+            # (both strings non-empty is part of C06), C04 demands it is kept -> filter_tables is not
+            # judged on it (DESIGN.md §8)
+            rec.count('empty_string_pairs_not_judged')
+            continue
         if p not in got:
             rec.violation('overlap_tables', 'OverlapFilter(size=%r, %s).filter_tables does not list '
                           '(%r, %r) with overlap %d: l=%r r=%r' % (
